@@ -314,13 +314,20 @@ func (f *destinationTripper) getTransport(tlsServerName string, dialer *net.Dial
 			},
 		}
 		if f.dnsCache != nil {
-			tr.DialContext = f.dnsCache.DialContext
+			tr.DialContext = f.dialThroughCache
 		}
 		transport, f.transports[tlsServerName] = tr, tr
 	}
 
 	transport.lastUsed.Store(time.Now())
 	return transport
+}
+
+// dialThroughCache dials through the DNS cache of the client. The cache has
+// allow / deny lists of its own; if the client was given lists as well
+// (WithAllowDenyNetworks), an address has to pass both.
+func (f *destinationTripper) dialThroughCache(ctx context.Context, network, address string) (net.Conn, error) {
+	return f.dnsCache.dialContext(ctx, network, address, f.dialer.ControlContext)
 }
 
 func makeHTTPSURL(u *url.URL, addr string) (httpsURL url.URL) {
@@ -353,7 +360,7 @@ retryResolution:
 			if f.dnsCache != nil {
 				// requests are dialled through the DNS cache, which carries
 				// its own allow / deny lists
-				wellKnownDial = f.dnsCache.DialContext
+				wellKnownDial = f.dialThroughCache
 			} else if f.dialer.ControlContext != nil {
 				wellKnownDial = f.dialer.DialContext
 			}
